@@ -31,7 +31,11 @@ func raceMain(a []string) {
 	iot, _ := strconv.Atoi(a[4])
 	seed, _ := strconv.ParseInt(a[5], 10, 64)
 	if len(a) > 6 && a[6] == "hot" {
-		hotMain(base, secs, ng, idx, iot)
+		hotMain(base, secs, ng, idx, iot, false)
+		return
+	}
+	if len(a) > 6 && a[6] == "backup" {
+		hotMain(base, secs, ng, idx, iot, true)
 		return
 	}
 	dir := filepath.Join(base, "d")
@@ -210,10 +214,15 @@ loop:
 
 // hotMain: one writer of write-once keys with tiny data files (almost every Put rotates) and many
 // readers fetching the last acknowledged key: every Get must return that key's own value (C08).
-func hotMain(base string, secs float64, ng, idx, iot int) {
+// With backups=true the data files are larger and the main goroutine takes a Backup every few milliseconds
+// while the writer and the readers keep going (C20 "the source is unaffected and remains usable", C09).
+func hotMain(base string, secs float64, ng, idx, iot int, backups bool) {
 	o := kv.DefaultOptions
 	o.DirPath = filepath.Join(base, "d")
 	o.DataFileSize = 1024
+	if backups {
+		o.DataFileSize = 16 * 1024
+	}
 	o.IndexType = int8(idx)
 	o.FileIOType = byte(iot)
 	o.ShardNum = 4
@@ -276,9 +285,21 @@ func hotMain(base string, secs float64, ng, idx, iot int) {
 				if k == nil {
 					continue
 				}
-				v, err := db.Get(k)
+				v, err := func() (v []byte, err error) {
+					defer func() {
+						if p := recover(); p != nil {
+							err = fmt.Errorf("PANIC %v", p)
+						}
+					}()
+					return db.Get(k)
+				}()
 				atomic.AddInt64(&gets, 1)
-				if err != nil {
+				if err != nil && strings.HasPrefix(err.Error(), "PANIC") {
+					mu.Lock()
+					errs["get:panic:"+strings.ReplaceAll(strings.SplitN(err.Error(), "[", 2)[0], " ", "_")]++
+					mu.Unlock()
+					atomic.AddInt64(&bad, 1)
+				} else if err != nil {
 					mu.Lock()
 					errs["get:"+errClass(err)]++
 					mu.Unlock()
@@ -292,10 +313,26 @@ func hotMain(base string, secs float64, ng, idx, iot int) {
 			}
 		}()
 	}
-	time.Sleep(time.Duration(secs * float64(time.Second)))
+	nb := int64(0)
+	if backups {
+		deadline := time.Now().Add(time.Duration(secs * float64(time.Second)))
+		for time.Now().Before(deadline) {
+			bdir := filepath.Join(base, fmt.Sprintf("b%d", nb))
+			if err := db.Backup(bdir); err != nil {
+				mu.Lock()
+				errs["backup:"+errClass(err)]++
+				mu.Unlock()
+			}
+			nb++
+			os.RemoveAll(bdir)
+			time.Sleep(3 * time.Millisecond)
+		}
+	} else {
+		time.Sleep(time.Duration(secs * float64(time.Second)))
+	}
 	close(stop)
 	wg.Wait()
 	db.Close()
-	json.NewEncoder(os.Stdout).Encode(map[string]interface{}{"counts": map[string]int64{"get": gets}, "errors": errs, "panics": map[string]int{},
+	json.NewEncoder(os.Stdout).Encode(map[string]interface{}{"counts": map[string]int64{"get": gets, "backup": nb}, "errors": errs, "panics": map[string]int{},
 		"stuck": false, "restart_agrees": true})
 }
